@@ -1260,3 +1260,5 @@ V("dyn-c17-function-rebound-at-module-level", "C17", "fire", UT, "def sorted_tup
   what="decorator applied by assignment: the name no longer refers to the definition", accept_inconclusive=True)
 V("dyn-c17-silent-unrelated-rebinding", "C17", "silent", UT, "def sorted_tuple(", "add_edges = (lambda f: f)(add_edges)\n\n\ndef sorted_tuple(",
   what="a function this check never analyses is rebound")
+V("dyn-c14-setattr-hook", "C14", "fire", LG, "    def sample(self, n=100, population=False,", "    def __setattr__(self, name, value):\n        object.__setattr__(self, name, value)\n\n    def sample(self, n=100, population=False,",
+  rule=None, what="the model class intercepts attribute assignment: outside the modelled subset", accept_inconclusive=True)
